@@ -493,6 +493,11 @@ impl Drop for VerifQplyGuard {
 impl VerifSearchHooks {
     fn enter_quiescence(&self) -> VerifQplyGuard {
         let d = self.qply.get() + 1;
+        if d > 4000 {
+            // watchdog for the harness: a recursion this deep is a runaway, stop before the stack does
+            self.qply.set(0);
+            panic!("flounder_verif: quiescence nesting cap exceeded");
+        }
         self.qply.set(d);
         if d > self.max_qply.get() {
             self.max_qply.set(d);
